@@ -39,7 +39,20 @@ func newReport(kind string) *Report {
 	return &Report{Kind: kind, Sigs: map[string]int{}, Counts: map[string]int{}, seen: map[[20]byte]bool{}}
 }
 
+// plain renders byte slices as lists of numbers (json would print them in base64)
+func plain(v interface{}) interface{} {
+	if b, ok := v.([]byte); ok {
+		out := make([]int, len(b))
+		for i, x := range b {
+			out[i] = int(x)
+		}
+		return out
+	}
+	return v
+}
+
 func (r *Report) miss(sig, what string, vec, want, got interface{}) {
+	want, got = plain(want), plain(got)
 	r.MismatchCount++
 	r.Sigs[sig]++
 	if len(r.Mismatches) < 16 && r.Sigs[sig] <= 2 {
